@@ -42,6 +42,11 @@ def mk_eq(a, b):
             return F
         if a[0] == 'none' and b[0] == 'none':
             return T
+        if a[0] == 'adt' and b[0] == 'adt' and len(a) > 2 and len(b) > 2 and a[1] == b[1]:
+            if a[2] != b[2]:
+                return F                      # different variants of one enum
+            if not (len(a) > 3 and a[3]) and not (len(b) > 3 and b[3]):
+                return T                      # the same field-less variant
         if a[0] == 'ite' and len(a) == 4:
             return Or(And(a[1], mk_eq(a[2], b)), And(Not(a[1]), mk_eq(a[3], b)))
         if b[0] == 'ite' and len(b) == 4:
@@ -936,6 +941,15 @@ class Walker:
             if len(pushes) == 1:
                 r = pushes[0]
                 return r['value'], r['pc']
+            # several push sites in the same loop, one per path (`if refused { v.push(A); continue } v.push(B)`): the element is
+            # whichever value its path pushed
+            if 2 <= len(pushes) <= 4 and all(r['value'] is not None for r in pushes) and \
+                    len({tuple(l[1] for l in r['loops']) for r in pushes}) == 1 and pushes[0]['loops'] and \
+                    all(sat(And(a['pc'], b['pc'])) is None for i, a in enumerate(pushes) for b in pushes[i + 1:]):
+                val = pushes[-1]['value']
+                for r in reversed(pushes[:-1]):
+                    val = mk_ite(r['pc'], r['value'], val)
+                return val, Or(*[r['pc'] for r in pushes])
             return ('elem', coll), T
         if h == 'keys':
             e = ('elem', coll)
